@@ -1,5 +1,6 @@
 import XL.Proofs.Syntax
 import XL.Proofs.ParseRender
+import XL.Proofs.Blanks
 /-!
 # C09 — JSON export and import preserve every value and are a fixed point
 
@@ -113,5 +114,48 @@ theorem signrun_export_counterexample :
 canonical tree parse to that tree, so exporting again gives the same text -/
 theorem export_reparses (t : Ast) (hc : Canon t) : (parseToks (toks t)).map render = .ok (render t) := by
   rw [parse_toks t hc]; rfl
+
+/-! ### which blank cells the export lists (`#EMPTY` entries)
+
+Range assembly lists an unpopulated cell as a node when a range over it has at most `compact` unlisted
+unpopulated cells; the export writes these nodes as `#EMPTY`, the import reads them back as listed.
+(Repaired defect `export-blank-listing`: the pinned code processed ranges in set order, once.) -/
+
+open XL.Blanks in
+/-- **every schedule of range assembly lists the same cells**: any two sequences of firings that end in
+a listing where no range can add anything have the same members -/
+theorem blank_listing_schedule_independent (c : Nat) (rs : List (List Nat)) (L L1 L2 : List Nat)
+    (h1 : Run c rs L L1) (s1 : Stable c rs L1) (h2 : Run c rs L L2) (s2 : Stable c rs L2) :
+    ∀ x, x ∈ L1 ↔ x ∈ L2 := schedule_independent c rs L L1 L2 h1 s1 h2 s2
+
+open XL.Blanks in
+/-- the model's listing is one such schedule and ends stable -/
+theorem blank_listing_is_a_schedule (c : Nat) (rs : List (List Nat)) (L : List Nat) :
+    Run c rs L (closure c rs L) ∧ Stable c rs (closure c rs L) := ⟨closure_run c rs L, closure_stable c rs L⟩
+
+open XL.Blanks in
+/-- neither the order (or multiplicity) of the ranges nor the order of what was listed before matters -/
+theorem blank_listing_order_independent (c : Nat) (rs rs' : List (List Nat)) (L L' : List Nat)
+    (hrs : ∀ r, r ∈ rs ↔ r ∈ rs') (hL : ∀ y, y ∈ L ↔ y ∈ L') :
+    ∀ x, x ∈ closure c rs L ↔ x ∈ closure c rs' L' := by
+  intro x
+  rw [closure_least, closure_least]
+  constructor
+  · intro h S hS hy
+    exact h S (stable_congr c rs' rs (fun r => (hrs r).symm) S hS) (fun y hyL => hy y ((hL y).mp hyL))
+  · intro h S hS hy
+    exact h S (stable_congr c rs rs' hrs S hS) (fun y hyL => hy y ((hL y).mpr hyL))
+
+open XL.Blanks in
+/-- **export → import → export lists nothing new**: assembling the ranges again over the exported listing
+returns that listing unchanged -/
+theorem blank_listing_fixed_point (c : Nat) (rs : List (List Nat)) (L : List Nat) :
+    closure c rs (closure c rs L) = closure c rs L := closure_idem c rs L
+
+open XL.Blanks in
+/-- non-vacuity, the shape of the repaired defect: `compact = 1`; B2:B4 misses B2 and B4, B4:D4 misses B4
+and C4, and C4 alone is referred to.  C4 is listed, then B4, then B2 — whatever the order of the ranges -/
+example : closure 1 [[2, 4], [4, 5], [5]] [] = [5, 4, 2] ∧ closure 1 [[5], [4, 5], [2, 4]] [] = [5, 4, 2] ∧
+    closure 1 [[2, 4], [4, 5]] [] = [] := by decide
 
 end XL.C09
